@@ -194,6 +194,7 @@ type Context struct {
 	files         map[string]([]ast.Block)       // parsed files
 	frundisINC    []string                       // list of paths where to search for frundis source files
 	ifIgnoreDepth int                            // depth of "#if" blocks with false condition
+	incFiles      []string                       // frundis source files currently being processed (innermost last)
 	ivars         map[string]string              // interpolation variables
 	line          int                            // current/last block source line
 	loc           *location                      // source location information
@@ -218,9 +219,15 @@ type location struct {
 
 // User macro call information
 type uMacroCallInfo struct {
-	loc   *location // location of depth 0 invocation
-	depth int
+	loc       *location // location of depth 0 invocation
+	depth     int
+	count     int  // number of expansions since the depth 0 invocation
+	exhausted bool // whether the expansion budget has been reported as exhausted
 }
+
+// maxMacroExpansions bounds the number of user macro expansions a single
+// top-level invocation can trigger.
+const maxMacroExpansions = 10000
 
 // User macro definition information
 type uMacroDefInfo struct {
